@@ -8,7 +8,7 @@ prop, wt, m = sys.argv[1:4]
 extra = sys.argv[4:]
 src = os.path.join(wt, "MUTATION", m)
 env = dict(os.environ, CARGO_TARGET_DIR=os.path.join(wt, "target"), CARGO_NET_OFFLINE="true")
-def sh(cmd, cwd=wt, timeout=1800):
+def sh(cmd, cwd=wt, timeout=1800, env=env):
     p = subprocess.run(cmd, cwd=cwd, shell=True, env=env, stdout=subprocess.PIPE, stderr=subprocess.STDOUT, text=True, timeout=timeout)
     return p.returncode, p.stdout
 meta = {"property": prop, "mutation": m, "source": "independent sub-agent given only the property text and a scratch worktree"}
@@ -36,7 +36,7 @@ try:
     rc, out = sh("git -C /repo apply %s/patch.diff" % src)
     assert rc == 0, out
     for p in [prop] + extra:
-        rc, out = sh("python3 check.py %s --tier quick" % p, cwd="/verif", timeout=3000)
+        rc, out = sh("python3 check.py %s --tier quick" % p, cwd="/verif", timeout=3000, env=dict(os.environ))
         viol = [l for l in out.splitlines() if l.startswith("VIOLATION") or l.startswith("DISAGREEMENT") or l.startswith("PROOF-STEP")]
         results[p] = {"exit": rc, "lines": viol[:6]}
 finally:
